@@ -15,7 +15,9 @@ import (
 //
 //   - src/build/incrementality.go RuntimeHash: what the loop over core.IterRuntimeFiles writes into the
 //     hash per runtime file is TRANSLATED into Gen/C11RuntimeHash.v (`loop_writes`): the digest of the
-//     path (WPathHash) and/or a name of the path (WPathName).  Model/C11.v builds the runtime key from it.
+//     path (WPathHash) and/or a name of the path (WPathName), and HOW the per-file values reach the combining
+//     hash (`files_combine`): directly, in iteration order (CInOrder), or through a slice that is sorted before
+//     it is written out (CSorted).  Model/C11.v builds the runtime key from both.
 //   - src/test/test_step.go: the closures needToRun and cacheOutputFiles of test(), the guard around the
 //     call of cacheOutputFiles and the reuse condition are pinned (log calls dropped) to the text
 //     Model/C11.v `test_step` was written from.
@@ -128,13 +130,22 @@ func init() {
 		// ---- RuntimeHash ----
 		fset, f := parseFile("src/build/incrementality.go")
 		fd := findFunc(f, "", "RuntimeHash")
-		var loop *ast.RangeStmt
-		for _, st := range fd.Body.List {
+		// The loop over core.IterRuntimeFiles is TRANSLATED: per runtime file it either writes into the combining hash
+		// directly (the digests are combined in iteration order: files_combine = CInOrder) or appends to a slice that a
+		// second loop writes out later; a sort of that slice between the two loops makes files_combine = CSorted
+		// (the file part becomes a hash of the multiset of contents).
+		var loop, outLoop *ast.RangeStmt
+		loopIdx := -1
+		for i, st := range fd.Body.List {
 			if rs, ok := st.(*ast.RangeStmt); ok {
-				if loop != nil {
-					failShape("RuntimeHash: more than one range loop")
+				switch {
+				case loop == nil:
+					loop, loopIdx = rs, i
+				case outLoop == nil:
+					outLoop = rs
+				default:
+					failShape("RuntimeHash: more than two range loops")
 				}
-				loop = rs
 			}
 		}
 		if loop == nil {
@@ -155,14 +166,40 @@ func init() {
 		}
 		hashVar := ""
 		writes := []string{}
+		collected := "" // the slice the per-file values are appended to, when they are not written directly
+		direct := false
+		classify := func(arg string) string {
+			switch {
+			case arg == hashVar && hashVar != "":
+				return "WPathHash"
+			case strings.HasPrefix(arg, "[]byte(") && names[strings.TrimSuffix(strings.TrimPrefix(arg, "[]byte("), ")")]:
+				return "WPathName"
+			}
+			failShape("RuntimeHash loop: %s is neither the path digest nor a path name", arg)
+			return ""
+		}
 		for i, st := range loop.Body.List {
 			switch x := st.(type) {
 			case *ast.AssignStmt:
-				if i != 0 || len(x.Lhs) != 2 || len(x.Rhs) != 1 {
+				if i == 0 {
+					if len(x.Lhs) != 2 || len(x.Rhs) != 1 {
+						failShape("RuntimeHash loop: unexpected assignment %s", c11Text(fset, x))
+					}
+					c11Pin("RuntimeHash loop: the path hash call", c11Text(fset, x.Rhs[0]), "state.PathHasher.Hash(src, false, true, false)")
+					hashVar = x.Lhs[0].(*ast.Ident).Name
+					continue
+				}
+				// <slice> = append(<slice>, <value>)
+				ap, ok := x.Rhs[0].(*ast.CallExpr)
+				if !ok || x.Tok != token.ASSIGN || len(x.Lhs) != 1 || len(x.Rhs) != 1 || types.ExprString(ap.Fun) != "append" || len(ap.Args) != 2 ||
+					ap.Ellipsis.IsValid() || types.ExprString(ap.Args[0]) != types.ExprString(x.Lhs[0]) {
 					failShape("RuntimeHash loop: unexpected assignment %s", c11Text(fset, x))
 				}
-				c11Pin("RuntimeHash loop: the path hash call", c11Text(fset, x.Rhs[0]), "state.PathHasher.Hash(src, false, true, false)")
-				hashVar = x.Lhs[0].(*ast.Ident).Name
+				if _, ok := x.Lhs[0].(*ast.Ident); !ok || (collected != "" && collected != types.ExprString(x.Lhs[0])) || direct {
+					failShape("RuntimeHash loop: per-file values go to more than one place (%s)", c11Text(fset, x))
+				}
+				collected = types.ExprString(x.Lhs[0])
+				writes = append(writes, classify(types.ExprString(ap.Args[1])))
 			case *ast.IfStmt:
 				c11Pin("RuntimeHash loop: the error check", c11Text(fset, x), "if err != nil { return result, err }")
 			case *ast.ExprStmt:
@@ -170,17 +207,45 @@ func init() {
 				if !ok || types.ExprString(c.Fun) != "h.Write" || len(c.Args) != 1 {
 					failShape("RuntimeHash loop: unexpected statement %s", c11Text(fset, x))
 				}
-				arg := types.ExprString(c.Args[0])
-				switch {
-				case arg == hashVar && hashVar != "":
-					writes = append(writes, "WPathHash")
-				case strings.HasPrefix(arg, "[]byte(") && names[strings.TrimSuffix(strings.TrimPrefix(arg, "[]byte("), ")")]:
-					writes = append(writes, "WPathName")
-				default:
-					failShape("RuntimeHash loop: h.Write(%s) is neither the path digest nor a path name", arg)
+				if collected != "" {
+					failShape("RuntimeHash loop: per-file values go to more than one place (%s)", c11Text(fset, x))
 				}
+				direct = true
+				writes = append(writes, classify(types.ExprString(c.Args[0])))
 			default:
 				failShape("RuntimeHash loop: unexpected statement %s", c11Text(fset, st))
+			}
+		}
+		combine := "CInOrder"
+		if collected == "" {
+			if outLoop != nil {
+				failShape("RuntimeHash: a second range loop (over %s) although the first writes into the hash directly", types.ExprString(outLoop.X))
+			}
+		} else {
+			// the slice must be written out, element by element, by the second loop - and nothing but a sort may touch it in between
+			if outLoop == nil || types.ExprString(outLoop.X) != collected {
+				failShape("RuntimeHash: the per-file values are collected in %s but no later loop ranges over it", collected)
+			}
+			val, ok := outLoop.Value.(*ast.Ident)
+			if !ok || len(outLoop.Body.List) != 1 || c11Text(fset, outLoop.Body.List[0]) != "h.Write("+val.Name+")" {
+				failShape("RuntimeHash: the loop over %s is not `for _, x := range %s { h.Write(x) }`: %s", collected, collected, c11Text(fset, outLoop))
+			}
+			if k, ok := outLoop.Key.(*ast.Ident); outLoop.Key != nil && (!ok || k.Name != "_") {
+				failShape("RuntimeHash: the loop over %s uses its index", collected)
+			}
+			for _, st := range fd.Body.List[loopIdx+1:] {
+				if st == ast.Stmt(outLoop) {
+					break
+				}
+				txt := c11Text(fset, st)
+				switch {
+				case txt == "h := sha1.New()":
+				case strings.HasPrefix(txt, "sort.Slice("+collected+",") || strings.HasPrefix(txt, "sort.SliceStable("+collected+",") ||
+					strings.HasPrefix(txt, "slices.SortFunc("+collected+","):
+					combine = "CSorted"
+				default:
+					failShape("RuntimeHash: unrecognised statement between the two loops: %s", txt)
+				}
 			}
 		}
 		// the frame around the loop
@@ -473,6 +538,10 @@ func init() {
 		b.WriteString("From Coq Require Import List NArith. Import ListNotations.\n")
 		b.WriteString("Inductive write := WPathHash | WPathName.\n")
 		fmt.Fprintf(&b, "Definition loop_writes : list write := [%s].\n", strings.Join(writes, "; "))
+		b.WriteString("(* RuntimeHash: how the per-file values are combined - CInOrder: written into the combining hash in the order\n")
+		b.WriteString("   IterRuntimeFiles yields the files; CSorted: collected into a slice that is sorted before it is written out. *)\n")
+		b.WriteString("Inductive fcombine := CInOrder | CSorted.\n")
+		fmt.Fprintf(&b, "Definition files_combine : fcombine := %s.\n", combine)
 		b.WriteString("(* ruleHash(runtime=true), test part of the runtime section: what is written, in order.  RWTestCmdEffective =\n")
 		b.WriteString("   target.GetTestCommand(state) (the command of the active build config); RWTestCmdSingle = target.Test.Command\n")
 		b.WriteString("   (the plain-string form only, empty for a per-config dict). *)\n")
